@@ -245,6 +245,17 @@ func (resultList) Extract(containerWriter, bool, reflect.Value) {
 }
 
 func (rl resultList) ExtractList(cw containerWriter, decorated bool, values []reflect.Value) error {
+	// Look for a returned error first so that nothing is extracted from a
+	// failed call.
+	for i, v := range values {
+		if rl.resultIndexes[i] >= 0 {
+			continue
+		}
+		if err, _ := v.Interface().(error); err != nil {
+			return err
+		}
+	}
+
 	for i, v := range values {
 		if resultIdx := rl.resultIndexes[i]; resultIdx >= 0 {
 			rl.Results[resultIdx].Extract(cw, decorated, v)
